@@ -751,7 +751,12 @@ def gen_level(rng, T, app, opts):
         #  ill formed: the selector is not saved while the switch is off - wf_app, notes/C12.md stage 4)
         togg = [p for p in leaves if p.kind == "t" and p.fid != lv.enabler and p.depends is None]
         if togg:
-            lv.self_enabled_by = rng.choice(togg).name
+            tg = rng.choice(togg)
+            lv.self_enabled_by = tg.name
+            # every other port of the table waits for this switch (scan_deps reads the "self:" port of the
+            # directory), so the switch must not wait for one of them: cyclic metadata (D31)
+            if not opts.get("cyclic"):
+                tg.rdepends, tg.eb_leaf = [], None
     # children
     if T < LAST:
         kinds = []
@@ -773,6 +778,10 @@ def gen_level(rng, T, app, opts):
                         and p.depends is None]
                 if togg:
                     tg = rng.choice(togg)
+                    if nxt.self_enabled_by is not None and not opts.get("cyclic"):
+                        # the sub-tree's table has its own switch (rSelf): both forms name that one port
+                        # (two different switches would wait for each other)
+                        tg = [p for p in togg if p.name == nxt.self_enabled_by][0]
                     c.enabled_by = c.name + "/" + tg.name
                     # every port of the sub-tree waits for this switch (its parent's "enabled by"), so the
                     # switch must not itself wait for a port of the sub-tree: the metadata would be cyclic
